@@ -323,6 +323,62 @@ def concatStreamS (final : Bool) (children : List SResult) : SResult :=
   let r := concatGoS final {} children
   ⟨r.2, ⟨r.1.lineOff + 1, r.1.colOff⟩⟩
 
+/-! ### … and with its `u32` line / column bookkeeping checked (concat_source.rs:221, 230, 340, 347-352, 355)
+
+`mapping.generated_line + current_line_offset`, `current_line_offset + 1`, `current_column_offset += generated_column`,
+`current_line_offset += generated_line - 1`: plain `u32` arithmetic (panics under overflow checks).  Each function is `none`
+where one of them would overflow and otherwise the saturating model above. -/
+
+def concatEvC (final : Bool) (st : CSt) : Ev → Option (CSt × List Ev)
+  | .chunk text m =>
+    if m.gl + st.lineOff < 2 ^ 32                                                       -- :221
+        ∧ ((st.needClose && (m.gl != 1 || m.gc != 0)) = true → st.lineOff + 1 < 2 ^ 32)  -- :230
+    then some (concatEvS final st (.chunk text m)) else none
+  | e => some (concatEvS final st e)
+
+def concatEvsC (final : Bool) : CSt → List Ev → Option (CSt × List Ev)
+  | st, [] => some (st, [])
+  | st, e :: es =>
+    match concatEvC final st e with
+    | none => none
+    | some r =>
+      match concatEvsC final r.1 es with
+      | none => none
+      | some r2 => some (r2.1, r.2 ++ r2.2)
+
+def concatChildC (final : Bool) (st : CSt) (child : SResult) : Option (CSt × List Ev) :=
+  let st0 := { st with sim := [], nim := [], lastMappingLine := 0 }
+  match concatEvsC final st0 child.evs with
+  | none => none
+  | some (st1, evs) =>
+    let gi := child.info
+    let close := st1.needClose && (gi.line != 1 || gi.col != 0)
+    if (close = true → st1.lineOff + 1 < 2 ^ 32)                         -- :340
+        ∧ (¬ gi.line > 1 → st1.colOff + gi.col < 2 ^ 32)                  -- :350 `current_column_offset += generated_column`
+        ∧ 1 ≤ gi.line ∧ st1.lineOff + (gi.line - 1) < 2 ^ 32              -- :354 `current_line_offset += generated_line - 1`
+    then
+      let closeEv : List Ev := if close then [.chunk none ⟨st1.lineOff + 1, st1.colOff, none⟩] else []
+      let nc := if close then false else st1.needClose
+      some ({ st1 with colOff := if gi.line > 1 then gi.col else st1.colOff + gi.col
+                       needClose := nc || (final && st1.lastMappingLine == gi.line)
+                       lineOff := st1.lineOff + (gi.line - 1) }, evs ++ closeEv)
+    else none
+
+def concatGoC (final : Bool) : CSt → List SResult → Option (CSt × List Ev)
+  | st, [] => some (st, [])
+  | st, c :: cs =>
+    match concatChildC final st c with
+    | none => none
+    | some r =>
+      match concatGoC final r.1 cs with
+      | none => none
+      | some r2 => some (r2.1, r.2 ++ r2.2)
+
+def concatStreamC (final : Bool) (children : List SResult) : Option SResult :=
+  match concatGoC final {} children with
+  | none => none
+  | some r => if r.1.lineOff + 1 < 2 ^ 32 then some ⟨r.2, ⟨r.1.lineOff + 1, r.1.colOff⟩⟩ else none   -- :357
+
 /-! ## whole trees: `source()` and `stream_chunks` with the checked pieces in place
 
 Nodes whose arithmetic is not restated in checked form (OriginalSource's tokenizer, the combined map, the position bookkeeping of
@@ -362,7 +418,7 @@ def _root_.Rs.Src.streamC : Src → Opts → Store → Option (SResult × Store)
     match inner with
     | some im => some (streamCombined t map name origSrc im remove o, σ)
     | none => (streamSMC t map o).map (·, σ)
-  | .concat .nil, o, σ => some (concatStreamS o.final [], σ)
+  | .concat .nil, o, σ => (concatStreamC o.final []).map (·, σ)
   | .concat (.cons s rest), o, σ =>
     match rest with
     | .nil => s.streamC o σ
@@ -372,7 +428,7 @@ def _root_.Rs.Src.streamC : Src → Opts → Store → Option (SResult × Store)
       | some r =>
         match rest.streamsC o r.2 with
         | none => none
-        | some r2 => some (concatStreamS o.final (r.1 :: r2.1), r2.2)
+        | some r2 => (concatStreamC o.final (r.1 :: r2.1)).map (·, r2.2)
   | .replace inner rs, o, σ =>
     match inner.streamC ⟨o.columns, false⟩ σ with
     | none => none
